@@ -17,6 +17,7 @@ if len(fs) != 1:
     print("matches:", [f["key"] for f in fs][:20]); sys.exit(1)
 f = fs[0]
 D = Driver(F, backend)
+D.all_generic_roots = bool(os.environ.get("GENERIC"))
 ov = {}
 for s in sys.argv[4:]:
     i, sp = s.split("=")
